@@ -69,9 +69,22 @@ Code(e) ==
        (IF DirectOK(e, exp) /\ WordsOK(e, exp) THEN 0 ELSE 1)
        + (IF e.words.st = "ok" /\ ~Excluded(e) /\ ~RoundTripOK(e) THEN 2 ELSE 0)
 
+\* C01 on an arbitrary binary the real loader accepted (no specification-side parse needed):
+\* header carried over, layout-ordered input word-identical, output is a fixed point of load
+RawOK(e) ==
+  e.words.st = "ok" =>
+    LET m == e.words.m[1] IN
+    /\ e.words.out_st = "ok" /\ Len(e.words.out) >= 5
+    /\ e.words.out[1] = MagicWord /\ e.words.out[2] = e.in_version /\ e.words.out[4] = e.in_bound /\ e.words.out[5] = Zero
+    /\ SubSeq(e.words.out, 6, Len(e.words.out)) = L!EncodeInsts(L!AllInsts(m), 1)
+    /\ (e.layout => SubSeq(e.words.out, 6, Len(e.words.out)) = SubSeq(e.in_words, 6, Len(e.in_words)))
+    /\ Len(e.words.out) = Len(e.in_words)
+    /\ e.words.re_st = "ok" /\ SameSections(e.words.re[1], m) /\ e.words.re[1].header = m.header
+RawCode(e) == IF e.words.st = "panic" \/ e.words.out_st = "panic" \/ e.words.re_st = "panic" THEN 5 ELSE IF RawOK(e) THEN 0 ELSE 2
+
 Init == l = 1 /\ bad = <<>>
 Next == /\ l <= Len(Rec)
-        /\ LET c == IF Rec[l].ev = "load" THEN Code(Rec[l]) ELSE 0 IN
+        /\ LET c == IF Rec[l].ev = "load" THEN Code(Rec[l]) ELSE IF Rec[l].ev = "rawload" THEN RawCode(Rec[l]) ELSE 0 IN
              bad' = IF c = 0 THEN bad ELSE Append(bad, <<l, c>>)
         /\ l' = l + 1
 Spec == Init /\ [][Next]_vars
